@@ -50,6 +50,23 @@ class _Canon(ast.NodeTransformer):
         self.generic_visit(node)
         return node
 
+    def visit_Raise(self, node: ast.Raise):
+        # exception *type* matters, the message text does not
+        if isinstance(node.exc, ast.Call):
+            node.exc.args = []
+            node.exc.keywords = []
+        self.generic_visit(node)
+        return node
+
+    def visit_Expr(self, node: ast.Expr):
+        v = node.value
+        if isinstance(v, ast.Call) and isinstance(v.func, ast.Attribute) and isinstance(v.func.value, ast.Name) and v.func.value.id in ("logger", "logging"):
+            v.args = []
+            v.keywords = []
+            return node
+        self.generic_visit(node)
+        return node
+
     def visit_JoinedStr(self, node: ast.JoinedStr):
         return ast.Constant(value="<fstring>")
 
